@@ -1372,8 +1372,11 @@ impl Server {
                 if let Ok(RespFrame::Integer(count)) = &result {
                     if *count > 0 && parts.len() >= 3 {
                         if let RespFrame::BulkString(Some(key_bytes)) = &parts[1] {
-                            if self.blocking_manager.has_blocked_clients(db, key_bytes) {
-                                // Simplified notification - no pre-computed value
+                            // One wake-up per pushed element (each serves one waiter)
+                            for _ in 0..(parts.len() - 2) {
+                                if !self.blocking_manager.has_blocked_clients(db, key_bytes) {
+                                    break;
+                                }
                                 self.blocking_manager.notify_key_ready(db, key_bytes);
                             }
                         }
@@ -1389,8 +1392,11 @@ impl Server {
                 if let Ok(RespFrame::Integer(count)) = &result {
                     if *count > 0 && parts.len() >= 3 {
                         if let RespFrame::BulkString(Some(key_bytes)) = &parts[1] {
-                            if self.blocking_manager.has_blocked_clients(db, key_bytes) {
-                                // Simplified notification - no pre-computed value
+                            // One wake-up per pushed element (each serves one waiter)
+                            for _ in 0..(parts.len() - 2) {
+                                if !self.blocking_manager.has_blocked_clients(db, key_bytes) {
+                                    break;
+                                }
                                 self.blocking_manager.notify_key_ready(db, key_bytes);
                             }
                         }
